@@ -1329,6 +1329,9 @@ impl VectorEngine {
     /// Returns an error if index building fails.
     pub fn build_and_cache_index(&self, config: HNSWConfig) -> Result<()> {
         let (index, keys) = self.build_hnsw_index(config)?;
+        // Cache storage keys: `search_similar` strips the storage prefix from cached keys, so a
+        // bare key that itself starts with "emb:" would otherwise lose its own first segment.
+        let keys = keys.iter().map(|k| Self::embedding_key(k)).collect();
         self.cache_hnsw_index("_default", Arc::new(index), keys);
         Ok(())
     }
